@@ -996,6 +996,12 @@ func (fr *Frame) indexAddr(x *ssa.IndexAddr, st *State, reach string) {
 		return
 	}
 	ev := vc.elemVar(et)
+	if vc.quantified() {
+		// seed the trigger term of quantified clauses about slice elements (s[i])
+		row := fmt.Sprintf("(select %s %s)", vc.look(st, ev), base)
+		fn := vc.slAt(vc.sortOf(et))
+		vc.emit(fmt.Sprintf("(assert (= (%s %s %s %s) (select %s %s)))", fn, row, off, idx, row, pos))
+	}
 	fr.addrs[x] = &Addr{Kind: "elem", Var: ev, Ref: vc.def(fr.name(x)+".b", "Int", base), Idx: vc.def(fr.name(x)+".i", "Int", pos), Sort: vc.sortOf(et), Typ: et}
 	fr.vals[x] = vc.fresh(fr.name(x), "Int")
 }
